@@ -3,8 +3,10 @@ package c17
 import (
 	"bytes"
 	"encoding/binary"
+	"encoding/json"
 	"errors"
 	"fmt"
+	"os"
 	"reflect"
 	"regexp"
 	"runtime"
@@ -72,7 +74,7 @@ func genValueCase(t *rapid.T) ValueCase {
 	}
 }
 
-var binOps = []string{"varint", "varint", "varint", "count", "count", "bool", "bool", "flip", "set", "trunc", "trail", "ins", "dup", "lz4wrap", "pubkey"}
+var binOps = []string{"varint", "varint", "varint", "count", "count", "count2", "bool", "bool", "flip", "set", "trunc", "trail", "ins", "dup", "lz4wrap", "pubkey", "fixlen"}
 var textOps = []string{"tok", "tok", "tok", "nest", "dupkey", "flip", "trunc", "trail", "ins"}
 
 func genBytesCase(t *rapid.T) BytesCase {
@@ -110,6 +112,12 @@ func genBytesCase(t *rapid.T) BytesCase {
 		c.Tape = genTape(t, 200)
 		c.Hostile = rapid.Bool().Draw(t, "hostile")
 		c.Muts = genMuts(1, 3)
+		if strings.HasPrefix(c.Kind, "msg") && pick(t, 3, "fix") != 0 {
+			c.Muts = append(c.Muts, Mut{Op: "fixlen"})
+			if pick(t, 4, "wrap") == 0 {
+				c.Muts = append(c.Muts, Mut{Op: "lz4wrap", Arg: uint64(pick(t, 8, "wraparg"))})
+			}
+		}
 	}
 	return c
 }
@@ -243,6 +251,41 @@ func (m *mutState) apply(k *kind, mu Mut) {
 			repl = putVarRef(nil, nv, 0)
 		}
 		m.replace(p, sz, repl)
+	case "count2":
+		// Two neighbouring length fields at once (a guard value and the length it is supposed to guard).
+		cands := varintCands(b, m.segs)
+		if len(cands) < 2 {
+			return
+		}
+		i := mu.Pos % (len(cands) - 1)
+		vals := [2]uint64{countLadder[mu.Arg%uint64(len(countLadder))], countLadder[(mu.Arg/64)%uint64(len(countLadder))]}
+		if (mu.Arg/4096)%2 == 0 {
+			vals[1] = []uint64{1 << 20, 1<<22 + 1, 0xffffff}[(mu.Arg/8192)%3]
+		}
+		mc := effMaxCount(k)
+		for j := 1; j >= 0; j-- { // later position first, so that the earlier offset stays valid
+			p := cands[i+j]
+			_, sz, ok := readVarRef(m.b, p)
+			if !ok {
+				return
+			}
+			nv := vals[j]
+			if mc != 0 && nv > mc {
+				nv = mc
+			}
+			m.replace(p, sz, putVarRef(nil, nv, 0))
+		}
+	case "fixlen":
+		// P2P frames: make the length prefix agree with the (edited) payload again.
+		if !strings.HasPrefix(k.name, "msg") || len(b) < 3 || b[0] != 0 {
+			return
+		}
+		_, sz, ok := readVarRef(b, 2)
+		if !ok || 2+sz > len(b) {
+			return
+		}
+		pl := b[2+sz:]
+		m.replace(2, sz, putVarRef(nil, uint64(len(pl)), 0))
 	case "bool":
 		var cands []int
 		for _, s := range m.segs {
@@ -731,7 +774,15 @@ func nestDepthR(v reflect.Value, rec int) int {
 
 // ---- bytes check -----------------------------------------------------------------------------------------------------------
 
+// traceFile (env C17_TRACE) receives every bytes case before it runs: the last one is the culprit when a decoder
+// hangs or the process dies (a hang cannot be turned into a verdict from inside the process).
+var traceFile = os.Getenv("C17_TRACE")
+
 func checkBytes(c BytesCase, o *vt.Obs) error {
+	if traceFile != "" {
+		b, _ := json.Marshal(c)
+		_ = os.WriteFile(traceFile, b, 0o644)
+	}
 	k := kindBy[c.Kind]
 	if k == nil {
 		return fmt.Errorf("unknown kind %q", c.Kind)
@@ -781,6 +832,18 @@ func checkBytes(c BytesCase, o *vt.Obs) error {
 func oracleBytes(k *kind, in []byte, expectReject, origin string, o *vt.Obs) error {
 	vd := &verdict{o: o}
 	fam := family(k.name)
+	// hangGuard: two decoders loop as many times as a count field says, without looking at read errors. Counts up to
+	// 2^22 are executed (and show up as allocation / as accepted values); beyond that the loop would run for minutes
+	// to centuries and cannot be interrupted from inside the process, so the case is reported without running it.
+	if k.guard != nil {
+		if n := k.guard(in); n > 1<<22 {
+			if e := vd.fail("hang/"+fam, "%s: the decoder's loop is driven by the count field alone: this %d-byte input makes it run %d iterations (not executed; found as a hang of the harness, see C17_TRACE); input %x",
+				k.name, len(in), n, shortB(in)); e != nil {
+				return e
+			}
+			return nil
+		}
+	}
 	var m1, m2 runtime.MemStats
 	runtime.ReadMemStats(&m1)
 	v, n, err := safeDec(k, in)
@@ -812,7 +875,11 @@ func oracleBytes(k *kind, in []byte, expectReject, origin string, o *vt.Obs) err
 	used := in[:n]
 	d0, err := safeStr(k.dump, v)
 	if err != nil {
-		return fmt.Errorf("%s: accepted value cannot be inspected: %v; input %x", k.name, err, shortB(in))
+		errors.As(err, &pe)
+		if e := vd.fail(pe.key(fam), "%s: inspecting (JSON-marshalling / reading) an accepted value panics: %v; input %x", k.name, err, shortB(in)); e != nil {
+			return e
+		}
+		return nil
 	}
 	id0 := ""
 	if k.ident != nil {
